@@ -19,7 +19,11 @@ Direct predicates on the real output, no model involved:
     equals the chromosome sequence of the alternative exon list;
   * no record towards a form whose junctions an annotated isoform already has;
   * no record towards a form whose read count is below its threshold;
-  * CLI GVF == union of the row results.
+  * CLI GVF == union of the row results;
+  * junction level, for EVERY transcript of the gene (also those that match only part of the
+    event, e.g. carriers of several cassette exons inside the event's introns): each record a
+    junction of the event yields, applied to the transcript, gives the transcript using that
+    junction (`junction_alt`); get_interjacent_exons = the exons inside the junction, ascending.
 """
 from __future__ import annotations
 import argparse
@@ -109,18 +113,32 @@ def gen_case(rng, case):
         pad_l, pad_r = rng.choice([0, 0, 1, 3]), rng.choice([0, 0, 2, 4])
         pos = cursor[g.chrom] + rng.randint(1, 5) + pad_l
         nex = rng.choice([3, 4, 4, 5, 5, 6, 7, 8])
-        pool = []
-        for _ in range(nex):
-            ln = rng.choice([1, 2, 3, 4, 5, 7, 9, 12, 15, 20])
-            pool.append((pos, pos + ln))
-            pos += ln + rng.choice([1, 1, 2, 3, 5, 8, 13])
         typ = rng.choice(TYPES)
-        k = rng.randint(3 if typ != 'MXE' else 4, nex) if nex >= 4 or typ != 'MXE' else 3
         if typ == 'MXE' and nex < 4:
             typ = 'SE'
         # the region of the event: consecutive pool exons j .. j+w-1, all in the base isoform
         w = {'SE': 3, 'MXE': 4, 'RI': 2, 'A5SS': 2, 'A3SS': 2}[typ]
         j = rng.randint(0, nex - w)
+        # "wide" genes: the introns of the event region carry 2-3 cassette exons each that belong
+        # to none of the two forms of the event but to carrier isoforms (several exons interjacent
+        # to the event's junctions, reached by the forward and the backward scan)
+        wide = rng.random() < 0.4
+        pool = []
+        cass = {}                      # region intron (index of its left pool exon) -> cassettes
+        for x in range(nex):
+            ln = rng.choice([1, 2, 3, 4, 5, 7, 9, 12, 15, 20])
+            pool.append((pos, pos + ln))
+            pos += ln
+            if wide and j <= x < j + w - 1:
+                pos += rng.choice([1, 1, 2, 3, 5])
+                cs = []
+                for _ in range(rng.choice([2, 2, 3])):
+                    cl = rng.choice([1, 2, 3, 4, 6])
+                    cs.append((pos, pos + cl))
+                    pos += cl + rng.choice([1, 1, 2, 3, 5])
+                cass[x] = cs
+            else:
+                pos += rng.choice([1, 1, 2, 3, 5, 8, 13])
         others = [x for x in range(nex) if not j <= x < j + w]
         keep = sorted(rng.sample(others, rng.randint(0, len(others))) + list(range(j, j + w)))
         base = [pool[x] for x in keep]
@@ -148,7 +166,7 @@ def gen_case(rng, case):
             vary_hi_end_of_lo = (typ == 'A5SS') == (g.strand == '+')
             if vary_hi_end_of_lo:
                 X, F = lo, hi
-                gap = F[0] - X[1]
+                gap = (cass[j][0][0] if cass.get(j) else F[0]) - X[1]
                 if X[1] - X[0] >= 2 and (gap < 2 or rng.random() < 0.5):
                     long_, short = X, (X[0], X[1] - rng.randint(1, X[1] - X[0] - 1))
                 elif gap >= 2:
@@ -157,7 +175,7 @@ def gen_case(rng, case):
                     short, long_ = X, X      # degenerate: nothing to vary (1-base exon, 1-base gap)
             else:
                 F, X = lo, hi
-                gap = X[0] - F[1]
+                gap = X[0] - (cass[j][-1][1] if cass.get(j) else F[1])
                 if X[1] - X[0] >= 2 and (gap < 2 or rng.random() < 0.5):
                     long_, short = X, (X[0] + rng.randint(1, X[1] - X[0] - 1), X[1])
                 elif gap >= 2:
@@ -198,6 +216,27 @@ def gen_case(rng, case):
             isoforms.append(src)
         if not isoforms:
             isoforms.append(base)
+        if cass:
+            allc = [c for cs in cass.values() for c in cs]
+            r_lo, r_hi = pool[j][0], pool[j + w - 1][1]
+            for _ in range(rng.choice([1, 2, 2, 3])):
+                src = list(rng.choice([inc, skp]))
+                add = [c for c in allc if all(c[1] < s_ or e_ < c[0] for s_, e_ in src)]
+                if len(add) > 2 and rng.random() < 0.3:
+                    add.pop(rng.randrange(len(add)))
+                ex = sorted(src + add)
+                reg = [q for q, iv in enumerate(ex) if iv in src and r_lo <= iv[0] and iv[1] <= r_hi]
+                if reg and len(ex) > 2 and rng.random() < 0.5:
+                    # lose or move one anchor of the event: the junction end is then not matched
+                    q = rng.choice(reg)
+                    s_, e_ = ex[q]
+                    if e_ - s_ < 2 or rng.random() < 0.5:
+                        del ex[q]
+                    elif rng.random() < 0.5:
+                        ex[q] = (s_ + 1, e_)
+                    else:
+                        ex[q] = (s_, e_ - 1)
+                isoforms.append(ex)
         rng.shuffle(isoforms)
         for ti, ex in enumerate(isoforms):
             g.txs.append(mk_tx(g, ti, ex, rng))
@@ -662,6 +701,47 @@ def check_semantics(ctx, a, W, ev, g, order, real_ex, recs, mins, viol, S, case_
                 S['apply'].append((line, got, (case_id, ev.desc(), mins)))
 
 
+def used_junctions(ev):
+    """(junction, upstream_novel, downstream_novel) exactly as the record class of the event
+    aligns them"""
+    c, plus = ev.coords, ev.gene.strand == '+'
+    if ev.typ == 'SE':
+        es, ee, us, ue, ds, de = c
+        return [((us, ue, ds, de), False, False), ((us, ue, es, ee), False, True),
+                ((es, ee, ds, de), True, False)]
+    if ev.typ == 'MXE':
+        f1s, f1e, f2s, f2e, us, ue, ds, de = c
+        return [((f1s, f1e, ds, de), True, False), ((us, ue, f2s, f2e), False, True)]
+    if ev.typ in ('A5SS', 'A3SS'):
+        ls, le, ss, se, fs, fe = c
+        if (ev.typ == 'A5SS') == plus:
+            return [((ls, le, fs, fe), True, False), ((ss, se, fs, fe), True, False)]
+        return [((fs, fe, ls, le), False, True), ((fs, fe, ss, se), False, True)]
+    return []
+
+
+def junction_alt(ex, j):
+    """the exon list of a transcript that uses the junction `ue -> ds`, written down from the
+    junction alone: everything of the transcript inside [ue, ds) is gone; a side of the
+    junction the transcript does not cover is supplied by the junction's own exon, cut back to
+    the neighbouring exon of the transcript"""
+    us, ue, ds, de = j
+    lower = [(s, min(e, ue)) for s, e in ex if s < ue]
+    upper = [(max(s, ds), e) for s, e in ex if e > ds]
+    mid = []
+    if not any(s <= ue - 1 < e for s, e in ex):
+        lo = max([e for _s, e in lower] + [us])
+        if lo >= ue:
+            return None
+        mid.append((lo, ue))
+    if not any(s <= ds < e for s, e in ex):
+        hi = min([s for s, _e in upper] + [de])
+        if hi <= ds:
+            return None
+        mid.append((ds, hi))
+    return lower + mid + upper
+
+
 def aln_stream(ctx, a, W, events, S, case_id):
     """internal: alignment indices, interjacent / spanning exons and the records of single
     junctions, every (junction, transcript, flags) combination of the events"""
@@ -681,6 +761,7 @@ def aln_stream(ctx, a, W, events, S, case_id):
                   (c[4], c[5], c[0], c[1]), (c[4], c[5], c[2], c[3])]
         order = list(gm.transcripts)
         gene_seq = gm.get_gene_sequence(W.genome[g.chrom])
+        junction_check(ctx, a, W, ev, g, gm, order, gene_seq, case_id)
         for j in js:
             if not (j[1] < j[2]):
                 continue
@@ -712,6 +793,79 @@ def aln_stream(ctx, a, W, events, S, case_id):
                         real = '|'.join([idx, inter, str(aln.get_upstream_end_spanning()),
                                          str(aln.get_downstream_start_spanning()), rs])
                     S['aln'].append((line, real, (case_id, ev.desc(), None)))
+
+
+def junction_check(ctx, a, W, ev, g, gm, order, gene_seq, case_id):
+    """direct predicate on EVERY transcript of the gene (not only the ones whose exons coincide
+    with a whole form of the event): each record that one junction of the event produces for a
+    transcript, applied to the transcript sequence under the documented semantics, gives the
+    sequence of that transcript using the junction (`junction_alt`)"""
+    from moPepGen import seqvar
+    chrom = a.chroms[g.chrom]
+    gs, ge = int(gm.location.start), int(gm.location.end)
+    gseq = str(gene_seq.seq)
+    for j, un, dn in used_junctions(ev):
+        us, ue, ds, de = j
+        if not (us < ue < ds < de):
+            continue
+        sj = seqvar.SpliceJunction(us, ue, ds, de, g.id, g.chrom)
+        for tid in order:
+            tm = W.anno.transcripts[tid]
+            ex = [(int(x.location.start), int(x.location.end)) for x in tm.exon]
+            aln = sj.align_to_transcript(tm, un, dn)
+            if aln is None:
+                continue
+            base = {'case': case_id, 'event': ev.desc(), 'junction': list(j),
+                    'upstream_novel': un, 'downstream_novel': dn, 'transcript': tid,
+                    'exons': ex}
+            base.update(a.desc())
+            try:
+                inter = aln.get_interjacent_exons()
+                vs = aln.convert_to_variant_records(W.anno, gene_seq, 'ID')
+            except Exception as e:     # noqa
+                base['exception'] = f'{type(e).__name__}: {e}'
+                ctx.add_violation('aligning a junction of the event to an annotated transcript '
+                                  'raised', base)
+                continue
+            ninter = sum(1 for s, e in ex if ue <= s and e <= ds)
+            ctx.count('junction', f'interjacent_{min(ninter, 3)}'
+                      + ('_bwd' if aln.upstream_end_index == -1 else '_fwd'))
+            if list(inter) != [i for i, (s, e) in enumerate(ex) if ue <= s and e <= ds] \
+                    and (aln.upstream_end_index > -1 or aln.downstream_start_index > -1):
+                base['interjacent'] = list(inter)
+                ctx.add_violation('get_interjacent_exons does not return, in transcript-list '
+                                  'order (the record builders take [0] and [-1]), the exons of '
+                                  'the transcript that lie inside the junction', base)
+            if not vs:
+                continue
+            alt = junction_alt(ex, j)
+            if alt is None:
+                ctx.count('junction', 'undefined_alt')
+                continue
+            want = seq_of(chrom, g.strand, alt)
+            tx_seq = str(tm.get_transcript_sequence(W.genome[g.chrom]).seq)
+            gcs = set()
+            for s_, e_ in ex:
+                for p_ in range(s_, e_):
+                    gcs.add(p_ - gs if g.strand == '+' else ge - 1 - p_)
+            for v in vs:
+                r = rec_tuple(v)
+                if r[0] == 'attr-mismatch':
+                    continue
+                ctx.count('junction', f'checked_{r[0]}{g.strand}_inter{min(ninter, 3)}')
+                got, note = apply_documented(r, ex, g.strand, gs, ge, tx_seq, gseq)
+                extra = dict(base)
+                extra.update({'record': list(r), 'alternative_exons': alt})
+                ends = [r[1]] if r[0] == 'I' else [r[1], r[2] - 1]
+                if any(x not in gcs for x in ends):
+                    ctx.add_violation('record boundary (START / END-1 / insert position) is not an '
+                                      'exonic position of its transcript', extra)
+                if got != want:
+                    extra.update({'applied': got, 'expected': want, 'note': note})
+                    ctx.add_violation('record of one junction of the event, applied to the '
+                                      'transcript sequence under the documented semantics, does '
+                                      'not give the sequence of the transcript using that junction',
+                                      extra)
 
 
 # ------------------------------------------------------------------ driver
@@ -748,7 +902,11 @@ def run(ctx: common.Ctx):
         'ids, exon records in transcript / genomic / reverse order; one planted event per gene '
         '(SE, A5SS, A3SS, MXE, RI uniformly) realised as an isoform pair that differs by exactly '
         'that event, annotated as inclusion form only / skip form only / both / neither, plus 0-2 '
-        'unrelated or boundary-perturbed isoforms and copies with other outer exons; a second '
+        'unrelated or boundary-perturbed isoforms and copies with other outer exons; in 40% of the '
+        'genes the introns of the event region carry 2-3 cassette exons each and 1-3 carrier '
+        'isoforms (a form of the event + the cassettes, half of them with one anchor exon of the '
+        'event dropped or moved by 1 nt) so that 2+ exons are interjacent to the event junctions '
+        'on the forward and on the backward scan; a second '
         'event from pool exons (often a partial match) on half of the genes; IJC, SJC in '
         '{0,1,2,3,5}, --min-ijc / --min-sjc in {0,1,2,3}; every row through the real record '
         'classes and the real CLI; near-valid rows (one coordinate shifted / swapped / moved out '
